@@ -405,8 +405,32 @@ func ruleOneVerdict(c *Ctx) {
 			}
 		}
 	}
-	if len(accs) != 2 {
-		c.undecided(rule, fi.Name, "accumulators", c.P.pos(fi.Decl.Pos()), fmt.Sprintf("expected two *[]*OpResult parameters, found %d", len(accs)))
+	// … or the two []*OpResult fields of a parameter that points to a struct of the module (a run object)
+	var accRoot types.Object
+	accFields := map[string]bool{}
+	if len(accs) == 0 {
+		for _, o := range params {
+			if o == nil || !isModuleStruct(o.Type()) {
+				continue
+			}
+			pt, ok := o.Type().Underlying().(*types.Pointer)
+			if !ok {
+				continue
+			}
+			st, _ := pt.Elem().Underlying().(*types.Struct)
+			fs := map[string]bool{}
+			for i := 0; st != nil && i < st.NumFields(); i++ {
+				if sl, ok := st.Field(i).Type().Underlying().(*types.Slice); ok && isNamed(sl.Elem(), modPath+"/rib", "OpResult") {
+					fs[st.Field(i).Name()] = true
+				}
+			}
+			if len(fs) == 2 {
+				accRoot, accFields = o, fs
+			}
+		}
+	}
+	if len(accs) != 2 && accRoot == nil {
+		c.undecided(rule, fi.Name, "accumulators", c.P.pos(fi.Decl.Pos()), fmt.Sprintf("expected two *[]*OpResult parameters (or one parameter object with two []*OpResult fields), found %d", len(accs)))
 		return
 	}
 	ev := func(n ast.Node) []Event {
@@ -414,6 +438,18 @@ func ruleOneVerdict(c *Ctx) {
 		inspectNoFuncLit(n, func(m ast.Node) bool {
 			switch x := m.(type) {
 			case *ast.AssignStmt:
+				// run.f = append(run.f, …)
+				if accRoot != nil && len(x.Lhs) == 1 && len(x.Rhs) == 1 {
+					if se, ok := ast.Unparen(x.Lhs[0]).(*ast.SelectorExpr); ok && accFields[se.Sel.Name] {
+						if o := objOfIdentPlain(info, se.X); o != nil && frameArgRoot(info, fi.Decl, o) == accRoot {
+							if call, ok := ast.Unparen(x.Rhs[0]).(*ast.CallExpr); ok {
+								if fid, ok := call.Fun.(*ast.Ident); ok && fid.Name == "append" {
+									out = append(out, Event{Kind: "verdict", Node: x, Data: "append " + se.Sel.Name})
+								}
+							}
+						}
+					}
+				}
 				// *acc = append(*acc, ...)
 				if len(x.Lhs) == 1 && len(x.Rhs) == 1 {
 					if st, ok := ast.Unparen(x.Lhs[0]).(*ast.StarExpr); ok {
